@@ -374,7 +374,7 @@ fn worker(
         if already_failed {
             // shrinking phase: bound it by wall clock as a safety net (result is still a failure)
             if let Some(t0) = *shrink_start.borrow() {
-                if t0.elapsed().as_secs() > 120 {
+                if t0.elapsed().as_secs() > 25 {
                     return Ok(());
                 }
             }
